@@ -231,13 +231,15 @@ structure SR where
   budget : Nat
   found : Option QD := none
   first : Option QD := none
+  cut : Bool := false     -- the search was cut short (node budget or depth): "no order explains it" is then NOT established
 
 /-- depth-first over the re-lock orders, the scheduler's order first; stops at the first quiescent outcome whose line
 equals the implementation's, or when the node budget is used up -/
 def QD.search : Nat → QD → String → SR → SR
-  | 0, d, _, r => { r with first := r.first <|> some d }
+  | 0, d, _, r => { r with first := r.first <|> some d, cut := true }
   | depth + 1, d, line, r =>
-    if r.found.isSome || r.budget == 0 then r else
+    if r.found.isSome then r else
+    if r.budget == 0 then { r with cut := true } else
     let d := QD.detClosure 10000 d
     match d.wokenOrdered with
     | [] =>
@@ -245,7 +247,8 @@ def QD.search : Nat → QD → String → SR → SR
       if d.obs == line then { r with found := some d } else r
     | woken =>
       woken.foldl (fun r p =>
-        if r.found.isSome || r.budget == 0 then r else
+        if r.found.isSome then r else
+        if r.budget == 0 then { r with cut := true } else
         match d.applyLabel (.relockTok p) with
         | some d' => QD.search depth { d' with runq := d'.runq.erase p } line r
         | none => r) { r with budget := r.budget - 1 }
@@ -254,14 +257,25 @@ structure QH where
   cur : QD := {}
   pend : Option QD := none       -- state after the last label, before the run to quiescence; resolved at its observation
   deferred : List String := []   -- lines to print at the next opportunity
+  desync : Bool := false         -- the re-lock-order search was cut short in this case: the model is not diffed any further
+  budget : Nat := 4000           -- node budget of the re-lock-order search (`lockorder_budget=` on the case line, for self-tests)
 
 def QH.resolveWith (h : QH) (line : Option String) : QH :=
   match h.pend with
   | none => h
   | some d =>
-    let r := QD.search 64 d (line.getD "") { budget := 4000 }
-    let chosen := (r.found <|> r.first).getD d
-    { h with cur := chosen, pend := none, deferred := h.deferred ++ [chosen.obs] }
+    let r := QD.search 64 d (line.getD "") { budget := h.budget }
+    match r.found, r.cut, line with
+    | some chosen, _, _ => { h with cur := chosen, pend := none, deferred := h.deferred ++ [chosen.obs] }
+    | none, true, some l =>
+      -- search limit, not a difference: accept the implementation's line for this step and stop diffing the case
+      -- (the property oracles keep running on the implementation's lines)
+      { h with pend := none, desync := true, cur := { h.cur with mon := d.mon },
+               deferred := h.deferred ++ ["tr lockorder-search-exhausted", "stat lockorder_exhausted 1", l] }
+    | none, _, _ =>
+      -- the search COMPLETED (or there is no line to compare with): no order explains the implementation
+      let chosen := r.first.getD d
+      { h with cur := chosen, pend := none, deferred := h.deferred ++ [chosen.obs] }
 
 def QH.start (h : QH) (ds : Option (List QD)) : QH :=
   match ds with
@@ -272,7 +286,8 @@ def mkQueueHandler (persistent : Bool) : Handler QH where
   init := { cur := { persistent := persistent } }
   onCase := fun h toks =>
     let k : Cfg := { cap := (kvInt toks "cap").getD 1, block := parseBool (kv toks "block"), wfr := parseBool (kv toks "wfr") }
-    { h with cur := { h.cur with k := k, mon := { cap := k.cap, block := k.block, wfr := k.wfr, persistent := persistent } } }
+    { h with budget := (kvNat toks "lockorder_budget").getD 4000,
+             cur := { h.cur with k := k, mon := { cap := k.cap, block := k.block, wfr := k.wfr, persistent := persistent } } }
   onOp := fun h toks =>
     let h := h.resolveWith none
     let outs := h.deferred
@@ -280,6 +295,7 @@ def mkQueueHandler (persistent : Bool) : Handler QH where
     let h : QH := { h with cur := d, deferred := [] }
     let one (d : QD) (l : Label) : Option (List QD) := (d.applyLabel l).map (fun x => [x])
     let h' : QH :=
+      if h.desync then h else
       match toks with
       | ["offer", p, el] =>
         match p.toNat?, el.toInt? with
@@ -318,7 +334,10 @@ def mkQueueHandler (persistent : Bool) : Handler QH where
       | _ => { h with deferred := ["obs bad-op"] }
     (h', outs)
   onObs := fun h toks =>
-    let h := h.resolveWith (some (" ".intercalate toks))
+    let line := " ".intercalate toks
+    let wasDesync := h.desync
+    let h := h.resolveWith (some line)
+    let h := if wasDesync then { h with deferred := h.deferred ++ [line] } else h
     { h with cur := { h.cur with mon := h.cur.mon.onObs toks } }
   onEnd := fun h =>
     let h := h.resolveWith none
@@ -339,26 +358,27 @@ structure GD where
   lastOp : List String := []
   els : List (Nat × Int) := []
   drained : Bool := false
+  outcomes : List (Nat × Nat) := []   -- export outcome per request id (default 0 = success)
   fails : List String := []
 
 def GD.obs (g : GD) : String :=
   s!"obs size={g.q.s.size} cap={g.q.k.cap} P={joinOr "," (g.q.prods.map (fun p => s!"{p}:{g.q.pstatus p}"))}"
 
 /-- complete everything, let released producers in, repeat (fuel-bounded) -/
-def GD.drainLoop : Nat → QD → QD
+def GD.drainLoop (oc : List (Nat × Nat)) : Nat → QD → QD
   | 0, d => d
   | fuel + 1, d =>
     let d := QD.closure 10000 d
     match d.s.inflight with
     | (id, _) :: _ =>
-      match d.applyLabel (.complete id 0) with
-      | some d' => GD.drainLoop fuel d'
+      match d.applyLabel (.complete id ((oc.lookup id).getD 0)) with
+      | some d' => GD.drainLoop oc fuel d'
       | none => d
     | [] =>
       match d.s.items with
       | _ :: _ =>
         match d.applyLabel (.read 0) with
-        | some d' => GD.drainLoop fuel d'
+        | some d' => GD.drainLoop oc fuel d'
         | none => d
       | [] => d
 
@@ -381,8 +401,12 @@ def configHandler : Handler GD where
       match p.toNat? with
       | some p => let (q', _) := g.q.ext (.cancel p); let g' := { g with q := q' }; (g', [g'.obs])
       | none => (g, ["obs bad-op"])
+    | ["outcome", p, e] =>
+      match p.toNat?, e.toNat? with
+      | some p, some e => ({ g with outcomes := (p, e) :: g.outcomes }, [])
+      | _, _ => (g, ["obs bad-op"])
     | ["drain"] =>
-      let g' := { g with q := GD.drainLoop 100000 g.q, drained := true }
+      let g' := { g with q := GD.drainLoop g.outcomes 100000 g.q, drained := true }
       (g', [g'.obs])
     | _ => (g, ["obs bad-op"])
   onObs := fun g toks =>
@@ -406,7 +430,7 @@ def configHandler : Handler GD where
             | _, _ => g
           | _ => g
         -- before the drain nothing finishes: without wait_for_result the reported size is the configured size of what was accepted
-        let accepted := ps.filter (fun (_, st) => st == "nil")
+        let accepted := ps.filter (fun (_, st) => st == "nil" || st == "e1")
         let want := accepted.foldl (fun a (p, _) => a + (g.els.lookup p).getD 0) (0 : Int)
         let g := fail g (!g.drained && !g.q.k.wfr && size != want)
           s!"sig=C02/config/reported-size-is-not-configured-size-of-accepted size={size} configured-sum={want}{at_}"
